@@ -124,4 +124,24 @@ CHECKS.update({
     ),
 })
 
+CHECKS.update({
+    'C18': dict(
+        level='exploration',
+        technique='model-based histories with generated persistence events (reopen, second handle, pickle, thread, fork, fresh interpreter); pinned-writes/current-reads format differential; committed golden directory',
+        text='Histories are continued through new handles, unpickled objects, other threads, forked children and fresh interpreters while the reference model ignores the events; every creation setting is '
+             're-read from each new handle; FanoutCache/DjangoCache reopen without arguments; directories written by the vendored pinned release (all key/value representations, tags, expiry, shards, '
+             'Deque, Index) and a committed golden directory must read back item for item and accept appends.',
+        note='Format reference = golden/pinned_diskcache and golden/dir-5.6.3.tar. Forking while a transaction is open is outside the generated domain (see DESIGN).',
+        ref='3/C18',
+    ),
+    'C19': dict(
+        level='exploration',
+        technique='three-way differential over generated call sequences: written contract model, Django LocMemCache, DjangoCache on one virtual clock (plus a frozen-clock variant)',
+        text='Sequences over the whole backend API x versions x timeout classes x backend parameters are run against the model, Django\'s reference backend and DjangoCache; '
+             'model vs LocMemCache disagreement is a harness error (guards the reading of the contract), DjangoCache vs model is the violation.',
+        note='Where the contract is silent and Django\'s own backends disagree (return of set/clear, delete of an expired-but-present key) the model accepts either.',
+        ref='3/C19',
+    ),
+})
+
 NOT_APPLICABLE = {p: PENDING for p in ['C%02d' % i for i in range(1, 21)] if p not in CHECKS}
